@@ -305,6 +305,23 @@ package comp
 //@   loop 1: invariant idx <= i && i <= r.length - 1 && (forall j :: i < j && j < r.length ==> !predicate(r.values[k][j]))
 //@   loop 1: invariant forall j :: 0 <= j && j <= idx ==> !predicate(r.values[k][j])
 
+//@ func (*RAT).Recent
+//@   requires wfRAT(r)
+//@   ensures !(k in r.idx) ==> len(result) == 0
+//@   ensures k in r.idx ==> fresh(result) && len(result) == (r.wrapped[k] ? r.length : r.idx[k] + 1)
+//@   ensures forall i :: 0 <= i && i <= r.idx[k] && k in r.idx ==> at(result, lo(result) + r.idx[k] - i) == r.values[k][i]
+//@   ensures forall i :: k in r.idx && r.wrapped[k] && r.idx[k] < i && i < r.length ==> at(result, lo(result) + r.idx[k] + r.length - i) == r.values[k][i]
+//@   ensures !has(r, k) ==> len(result) == 0
+//@   ensures has(r, k) ==> len(result) >= 1 && at(result, lo(result)) == newest(r, k)
+//@   ensures forall i :: validSlot(r, k, i) ==> 0 <= rank(r, k, i) && rank(r, k, i) < len(result) && at(result, lo(result) + rank(r, k, i)) == slot(r, k, i)
+//@   ensures forall j :: 0 <= j && j < len(result) ==> (exists i :: validSlot(r, k, i) && rank(r, k, i) == j)
+//@   assigns nothing
+//@   loop 0: invariant -1 <= i && i <= idx && len(res) == idx - i && cap(res) >= r.length && fresh(res) && !sameArray(res, r.values[k])
+//@   loop 0: invariant forall j :: i < j && j <= idx ==> at(res, lo(res) + idx - j) == r.values[k][j]
+//@   loop 1: invariant idx <= i && i <= r.length - 1 && len(res) == idx + r.length - i && cap(res) >= r.length && fresh(res) && !sameArray(res, r.values[k])
+//@   loop 1: invariant forall j :: 0 <= j && j <= idx ==> at(res, lo(res) + idx - j) == r.values[k][j]
+//@   loop 1: invariant forall j :: i < j && j < r.length ==> at(res, lo(res) + idx + r.length - j) == r.values[k][j]
+
 //@ func (*RAT).Write
 //@   requires wfRAT(r)
 //@   ensures wfRAT(r)
